@@ -25,9 +25,27 @@ class Color(enum.Enum):
     BLUE = "blue"
 
 
+from typelib.py import compat as _compat
+MAYBE_INT = _compat.TypeAliasType("MaybeInt", typing.Optional[int])          # type MaybeInt = int | None
+MAYBE_DATE = typing.NewType("MaybeDate", typing.Optional[datetime.date])
+NONE_NT = typing.NewType("NoneNT", type(None))
 POOL = [int, str, float, decimal.Decimal, datetime.date, datetime.datetime, uuid.UUID, list[int],
-        dict[str, int], DC, Color, typing.Literal["lit", 3]]
+        dict[str, int], DC, Color, typing.Literal["lit", 3], MAYBE_INT, MAYBE_DATE, NONE_NT]
 NONE = type(None)
+
+
+def nullable(m):
+    """the member is None - as written, behind NewType / alias layers, or as a member of an optional union behind such layers
+    (judged with typing's own attributes)"""
+    for _ in range(8):
+        if hasattr(m, "__supertype__"):
+            m = m.__supertype__
+        elif type(m).__name__ == "TypeAliasType":
+            m = m.__value__
+        else:
+            break
+    return m is None or m is NONE or (typing.get_origin(m) in (typing.Union, __import__("types").UnionType)
+                                      and any(nullable(a) for a in typing.get_args(m)))
 
 INPUTS = [None, 0, 1, -5, 1.5, True, "1", "1.5", "abc", "", "null", "None", "red", "lit", 3, "3", b"7", b"abc",
           "2020-01-02", "2020-01-02T03:04:05+00:00", "12345678-1234-5678-1234-567812345678", [1, 2], ["a"], (),
@@ -46,7 +64,7 @@ def member_result(member, x, marshal):
 
 
 def expected(members, x, marshal):
-    if x is None and NONE in members:
+    if x is None and any(nullable(m) for m in members):
         return ("ok", None)
     for m in members:
         r = member_result(m, x, marshal)
@@ -97,7 +115,7 @@ def cases(seed=0, n_random=400):
     rnd = random.Random(seed)
     # systematic: pairs / triples with None at every position over a small core, then random over the pool
     core = [int, str, decimal.Decimal, datetime.date]
-    out = []
+    out = [[str, MAYBE_INT], [MAYBE_INT, str], [str, int, MAYBE_DATE], [str, NONE_NT], [decimal.Decimal, NONE_NT, int]]
     for k in (2, 3):
         for ms in itertools.permutations(core + [NONE], k):
             if len(set(ms)) == k:
